@@ -122,7 +122,16 @@ func (km *KeyManager) VerifyConsensusMessage(blockHeight primitives.BlockHeight,
 	if sender == nil {
 		return errors.New("nil sender")
 	}
-	if !km.w.keys.MsgSigValid(sender.MemberId(), uint64(blockHeight), content, sender.Signature()) {
+	ok := km.w.keys.MsgSigValid(sender.MemberId(), uint64(blockHeight), content, sender.Signature())
+	if h := km.w.kmHold; h != nil && h.node == km.idx && h.count > 0 {
+		// a slow key manager: this consumer thread's validation call is held here (blockproof.go)
+		h.count--
+		if h.count == 0 {
+			h.parked = true
+			<-h.ch
+		}
+	}
+	if !ok {
 		return errors.New("bad signature")
 	}
 	return nil
@@ -232,6 +241,7 @@ type Gate struct {
 	started uint64 // event seq
 	late    bool   // released after ctx was cancelled, with a result
 	role    string // yield gates: role of the parked goroutine
+	midEvent bool  // a parked main loop that has an election trigger / sync in hand (not yet forwarded)
 }
 
 // enter is called from library goroutines inside SPI fakes.
